@@ -775,5 +775,10 @@ fn get_max_packet_points(prototype: &[Record]) -> usize {
     let headers_size = DataPacketHeader::SIZE + bs_size_headers;
     let max_incomplete_bytes = prototype.len();
     let u16_max = u16::MAX as usize;
+    if point_size_bits == 0 {
+        // Corner case: if all records have min=max the points need no bits at all.
+        // No data packets will be written, so there is also no limit to consider.
+        return u16_max;
+    }
     ((u16_max - headers_size - max_incomplete_bytes - SAFETY_MARGIN) * 8) / point_size_bits
 }
